@@ -218,13 +218,13 @@ def make_post(rnd, dim, force=None, zr=3):
 
     def add(fn, kind, idx, dt="float", form="array"):
         queries.append(dict(fn=fn, kind=kind, idx=list(idx), dt=dt, form=form))
-    for fn in ("logpdf", "grad", "pdf"):
-        single = "scalar" if dim == 1 else "1d"
+    single = "scalar" if dim == 1 else "1d"
+    multi = ["2d"] + (["1d"] if dim == 1 else [])
+    for fn in ("logpdf", "grad"):
         for i in range(n):
             add(fn, single, [i], form=rnd.choice(["array", "0d", "list"]) if dim == 1 else rnd.choice(["array", "list"]))
-        for i in integral[:4]:
+        for i in integral[:3]:
             add(fn, single, [i], dt="int", form=rnd.choice(["array", "list"]))
-        multi = ["2d"] + (["1d"] if dim == 1 else [])
         for kind in multi:
             add(fn, kind, range(n))
             add(fn, kind, [rnd.choice(inside)])
@@ -234,6 +234,11 @@ def make_post(rnd, dim, force=None, zr=3):
             add(fn, kind, rnd.sample(range(n), rnd.randint(2, n)))
             if len(integral) >= 2:
                 add(fn, kind, integral, dt="int", form=rnd.choice(["array", "list"]))
+    # pdf = exp(logpdf): a few queries per scenario
+    for i in rnd.sample(range(n), min(3, n)):
+        add("pdf", single, [i], form=rnd.choice(["array", "list"]))
+    add("pdf", "2d", range(n))
+    add("pdf", rnd.choice(multi), outside)
     return dict(part="post", dim=dim, bounds=bounds, h=h, points=points, queries=queries)
 
 
@@ -246,7 +251,7 @@ def post_scenarios(ctx):
             for z in range(-zr, zr + 1):
                 out.append(make_post(rnd, dim, force=(z, sd), zr=zr))
     n_sweep = len(out)
-    for _ in range(60 if ctx.quick else 600):
+    for _ in range(40 if ctx.quick else 600):
         out.append(make_post(rnd, rnd.choice([1, 2, 2, 3]), zr=zr))
     return out, n_sweep
 
@@ -427,7 +432,7 @@ def sur_scenarios(ctx):
     rnd = random.Random(ctx.seed * 104729 + 7)
     # a history is worth replaying if it asks something after the GP exists
     useful = [h for h in hists if any(e[0] == "update" for e in h[1]) and h[1][-1][0] in ("predict", "gradients", "update", "optimize")]
-    n_take = 90 if ctx.quick else 1200
+    n_take = 70 if ctx.quick else 1200
     if len(useful) > n_take:
         # keep every history that ends in a fast-path query after a change made while a cache existed (the
         # transitions on which the two cache rules differ), fill up with a seeded sample of the rest
@@ -541,8 +546,13 @@ def record_bolfi(sc):
             tm = Rec(parameter_names=names, bounds={n: (-2, 2) for n in names}, max_opt_iters=15)
             import io
             import contextlib
+            kw = {}
+            if sc["acq"] == "uniform":
+                # an acquisition rule that never asks the surrogate: nothing but update() runs between two sample() calls
+                from elfi.methods.bo.acquisition import UniformAcquisition
+                kw["acquisition_method"] = UniformAcquisition(model=tm, seed=seed % (2 ** 31))
             bo = elfi.BOLFI(d, batch_size=1, initial_evidence=sc["n_init"], update_interval=sc["interval"],
-                            bounds={n: (-2, 2) for n in names}, target_model=tm, seed=seed % (2 ** 31))
+                            bounds={n: (-2, 2) for n in names}, target_model=tm, seed=seed % (2 ** 31), **kw)
             with contextlib.redirect_stdout(io.StringIO()):
                 bo.fit(n_evidence=sc["n1"], bar=False)
                 bo.sample(sc["n_samples"], algorithm=sc["alg"], n_chains=2, threshold=sc.get("thr"))
@@ -560,14 +570,30 @@ def record_bolfi(sc):
 def bolfi_scenarios(ctx):
     rnd = random.Random(ctx.seed * 31 + 5)
     out = []
-    combos = [(2, "metropolis"), (3, "nuts")] if ctx.quick else [(1, "metropolis"), (2, "metropolis"), (2, "nuts"), (3, "nuts"), (3, "metropolis")]
-    for dim, alg in combos:
-        out.append(dict(part="bolfi", dim=dim, alg=alg, seed=rnd.randint(0, 2 ** 30), n_init=4, interval=rnd.choice([2, 3]),
-                        n1=6, n2=9, n_samples=30 if ctx.quick else 60, thr=None if rnd.random() < 0.5 else 1.5))
+    # (dim, sampler, acquisition, threshold given?)  NUTS in one dimension is left out: mcmc.nuts itself breaks there
+    # under numpy 2 (float() of a 1-element array, finding F12 of C09/C11), before the surrogate matters
+    combos = ([(2, "metropolis", "uniform", True), (3, "nuts", "lcbsc", False)] if ctx.quick else
+              [(1, "metropolis", "uniform", True), (2, "metropolis", "lcbsc", False), (2, "nuts", "uniform", True),
+               (3, "nuts", "lcbsc", True), (3, "metropolis", "uniform", False), (1, "metropolis", "lcbsc", True)])
+    for dim, alg, acq, thr in combos:
+        out.append(dict(part="bolfi", dim=dim, alg=alg, acq=acq, seed=rnd.randint(0, 2 ** 30), n_init=3, interval=rnd.choice([2, 3]),
+                        n1=5, n2=7 if ctx.quick else 9, n_samples=16 if ctx.quick else 60, thr=1.5 if thr else None))
     return out
 
 
 # =================================================================== checking
+def pmap(fn, items, procs=6, serial_below=150):
+    """order-preserving map; large batches are recorded by forked worker processes (the recorders are pure
+    functions of the scenario; every worker runs them in its main thread, so time_limit works)"""
+    if len(items) < serial_below:
+        return [fn(x) for x in items]
+    import multiprocessing
+    import elfi  # noqa: F401  (imported before the fork so that the workers inherit it)
+    import elfi.methods.bo.gpy_regression  # noqa: F401
+    with multiprocessing.get_context("fork").Pool(procs) as pool:
+        return pool.map(fn, items, chunksize=max(1, len(items) // (procs * 8)))
+
+
 def risky_fast_queries(sc):
     """number of fast-path queries asked after a change that followed an earlier fast-path query"""
     samp, asked, risk, n = False, False, False, 0
@@ -588,8 +614,8 @@ def check_scenarios(ctx, scs):
         parts[sc.get("part", "post")].append(sc)
     all_traces = []
     if parts["post"]:
-        traces = [record_post(sc) for sc in parts["post"]]
-        verdicts = ctx.validate("BolfiPosterior_Trace", traces, chunk=60, name="post")
+        traces = pmap(record_post, parts["post"])
+        verdicts = ctx.validate("BolfiPosterior_Trace", traces, chunk=32, name="post")
         for sc, tr, v in zip(parts["post"], traces, verdicts):
             ctx.trace_events += len(tr["queries"])
             for q in sc["queries"]:
@@ -605,7 +631,7 @@ def check_scenarios(ctx, scs):
     for part, rec in (("sur", record_sur), ("bolfi", record_bolfi)):
         if not parts[part]:
             continue
-        traces = [rec(sc) for sc in parts[part]]
+        traces = pmap(rec, parts[part])
         verdicts = ctx.validate("Surrogate_Trace", [dict(dim=t["dim"], kdef=t["kdef"], events=t["events"]) for t in traces], chunk=200, name=part)
         for sc, tr, v in zip(parts[part], traces, verdicts):
             ctx.trace_events += len(tr["events"])
@@ -614,9 +640,9 @@ def check_scenarios(ctx, scs):
                     e["op"] in ("predict", "gradients") and e["lib"] for e in tr["events"]))
             else:
                 nq = sum(1 for e in tr["events"] if e["op"] in ("predict", "gradients"))
-                ctx.case(("bolfi", sc["dim"], sc["alg"], sc["seed"]), nontrivial=nq > 0)
-                ctx.notes.append("BOLFI run dim=%d %s: %d events (%d updates, %d logged queries), run %s %s" % (
-                    sc["dim"], sc["alg"], len(tr["events"]), sum(1 for e in tr["events"] if e["op"] == "update"), nq,
+                ctx.case(("bolfi", sc["dim"], sc["alg"], sc["acq"], sc["seed"]), nontrivial=nq > 0)
+                ctx.notes.append("BOLFI run dim=%d %s %s: %d events (%d updates, %d logged queries), run %s %s" % (
+                    sc["dim"], sc["alg"], sc["acq"], len(tr["events"]), sum(1 for e in tr["events"] if e["op"] == "update"), nq,
                     tr["run"]["res"], tr["run"]["exc"]))
             if v["verdict"] != "ok":
                 e = tr["events"][v["l"] - 2] if 0 <= v["l"] - 2 < len(tr["events"]) else None
@@ -640,13 +666,14 @@ def design_level(ctx):
     acts = ["QueryA", "QueryB"]
     if ctx.quick:
         ctx.tlc("MC_BolfiPosterior", "MC_BolfiPosterior_main", expect_actions=acts, workers=8, timeout=600,
-                cfg_text=post_cfg("{1, 2}", 0, 1, "{1, 2}", "MCLpValsSmall", "MCPriorSlopesSmall", "code", POST_INVS))
+                cfg_text=post_cfg("{1, 2}", 0, 1, "{1, 2}", "MCLpValsSmall", "MCPriorSlopesOne", "code", POST_INVS))
     else:
         ctx.tlc("MC_BolfiPosterior", "MC_BolfiPosterior_main", expect_actions=acts, workers=8, timeout=1500,
                 cfg_text=post_cfg("{1, 2}", 0, 2, "{1, 2, 3, 4}", "MCLpVals", "MCPriorSlopes", "code", POST_INVS))
-    for variant, inv in (("signflip", "GradientBrackets"), ("nohalf", "ChainRule"), ("sigmasq", "ChainRule")):
+    negs = (("signflip", "GradientBrackets"), ("nohalf", "ChainRule"), ("sigmasq", "ChainRule"))
+    for variant, inv in (negs[:2] if ctx.quick else negs):
         ctx.tlc("MC_BolfiPosterior", "MC_BolfiPosterior_neg_%s" % variant, expect_ok=False, workers=4, timeout=600,
-                cfg_text=post_cfg("{1}", 0, 1, "{1, 2}", "MCLpValsSmall", "MCPriorSlopesSmall", variant, [inv]))
+                cfg_text=post_cfg("{1}", 0, 1, "{1, 2}", "MCLpValsSmall", "MCPriorSlopesOne", variant, [inv]))
     sacts = ["Update", "Optimize", "SetSampling", "Answer"]
     sinv = ["TypeOK", "FastPathFresh", "AnswersCurrent", "EvidenceIsIdsInOrder"]
     maxchg, maxlen, maxev = (3, 6, 4) if ctx.quick else (4, 8, 5)
